@@ -555,6 +555,22 @@ def _same_records(a, b):
     return True
 
 
+def _reference_differs(full, complete):
+    """The library's reading of the COMPLETE file against the independent fixed-width parser (names, numbers, values): the
+    yardstick every accepted truncation is measured with must itself be the file's records."""
+    try:
+        _t, n_i, recs_i, _b, _raw = parse_image(complete)
+    except Exception:
+        return None               # (files the simple parser cannot read, e.g. dots in unusual places: not judged here)
+    if len(full) != n_i:
+        return f"{len(full)} records, the file has {n_i}"
+    for k, (a, b) in enumerate(zip(full, recs_i)):
+        a = list(a)
+        if len(a) != len(b) or a[:4] != b[:4] or any(abs(float(x) - float(y)) > 1e-9 for x, y in zip(a[4:], b[4:])):
+            return f"record {k}: {a} vs file {b}"
+    return None
+
+
 def check_crash_points(trace, session, ops, complete, d, ctx):
     import random
     P = "C14"
@@ -563,6 +579,10 @@ def check_crash_points(trace, session, ops, complete, d, ctx):
     full = try_read(img_path, complete)
     if full is None or len(full) != len(session["records"]):
         ctx.violate(P, "complete-file-rejected", "the complete file is not readable; nothing to compare truncations with")
+        return
+    diff = _reference_differs(full, complete)
+    if diff:
+        ctx.violate(P, "accepted-differs", f"the complete file is read as something else than its records: {diff}", key="complete")
         return
     n = len(session["records"])
     # byte offset where the box line of the complete file starts
@@ -718,6 +738,11 @@ def truncate_shipped(trace, ctx, d):
     full = try_read(img_path, complete)
     if full is None:
         ctx.violate(P, "complete-file-rejected", f"shipped file {trace['shipped']} is not readable")
+        return
+    diff = _reference_differs(full, complete.replace(b"\r\n", b"\n"))
+    if diff:
+        ctx.violate(P, "accepted-differs", f"shipped file {trace['shipped']} is read as something else than its records: {diff}",
+                    key="complete")
         return
     lines = complete.split(b"\n")
     n = int(lines[1])
